@@ -47,6 +47,7 @@ prop(
 
 prop(
     "C02",
+    configs={"quick": ["rel", "dbg"], "thorough": ["rel", "dbg"]},
     batches={"quick": 16, "thorough": 16},
     timeout={"quick": 300, "thorough": 3000},
     rule="(a) bounded-exhaustive length structures: declared length L=0..B (B=36 quick, 52 thorough), buffer length 20+L+d for "
@@ -63,6 +64,7 @@ prop(
 
 prop(
     "C03",
+    configs={"quick": ["rel", "dbg"], "thorough": ["rel", "dbg"]},
     timeout={"quick": 300, "thorough": 3000},
     rule="seeded random sequences of building operations (Add/RawAttribute, SetType/MessageType.AddTo, 4 transaction-id setters, "
          "6 address setters, 4 text setters, ErrorCodeAttribute/ErrorCode, UnknownAttributes, MessageIntegrity short/long-term, "
@@ -119,6 +121,7 @@ prop(
 
 prop(
     "C06",
+    configs={"quick": ["rel", "dbg"], "thorough": ["rel", "dbg"]},
     timeout={"quick": 300, "thorough": 3000},
     rule="(1) all 65536 ports x {IPv4, IPv6, IPv4-mapped IPv6, one-byte near misses of the ::ffff:0:0/96 prefix} x 7 address attribute entry points (XOR-MAPPED-ADDRESS, XORMappedAddress.AddToAs "
          "over 7 types, MAPPED-ADDRESS, MappedAddress.AddToAs, ALTERNATE-SERVER, RESPONSE-ORIGIN, OTHER-ADDRESS) with random addresses and "
@@ -156,6 +159,7 @@ prop(
 
 prop(
     "C08",
+    configs={"quick": ["rel", "dbg"], "thorough": ["rel", "dbg"]},
     timeout={"quick": 300, "thorough": 3000},
     rule="seeded chains of 2..8 uses of one Message (start: new / New() / pre-sized buffer); each use is a decode (Decode, Write, "
          "UnmarshalBinary, ReadFrom, CloneTo into it; 1 in 8 of a mutated, possibly failing input) or a build (Build with setters incl. "
@@ -188,7 +192,7 @@ prop(
 
 prop(
     "C18",
-    configs={"quick": ["rel", "race"], "thorough": ["rel", "race"]},
+    configs={"quick": ["rel", "race", "dbg"], "thorough": ["rel", "race", "dbg"]},
     batches={"quick": 8, "thorough": 16},
     race_batches={"quick": 4, "thorough": 8},
     timeout={"quick": 300, "thorough": 3000},
@@ -206,6 +210,7 @@ prop(
 
 prop(
     "C13",
+    configs={"quick": ["rel", "dbg"], "thorough": ["rel", "dbg"]},
     timeout={"quick": 300, "thorough": 3000},
     max_counters=["abstract_states_visited_max_per_batch"],
     rule="exhaustive: every call sequence of length 5 (quick) / 6 (thorough) over the 27-symbol alphabet {Start(id,t) 3x4, Stop(id) 3, "
@@ -223,7 +228,7 @@ prop(
 
 prop(
     "C14",
-    configs={"quick": ["race", "rel"], "thorough": ["race", "rel"]},
+    configs={"quick": ["race", "rel", "dbg"], "thorough": ["race", "rel", "dbg"]},
     batches={"quick": 8, "thorough": 16},
     race_batches={"quick": 8, "thorough": 16},
     timeout={"quick": 400, "thorough": 3000},
@@ -267,7 +272,7 @@ prop(
 
 prop(
     "C16",
-    configs={"quick": ["rel", "race"], "thorough": ["rel", "race"]},
+    configs={"quick": ["rel", "race", "dbg"], "thorough": ["rel", "race", "dbg"]},
     race_batches={"quick": 4, "thorough": 8},
     timeout={"quick": 150, "thorough": 3000},
     maxstack=1 << 20,
@@ -289,6 +294,7 @@ prop(
 
 prop(
     "C17",
+    configs={"quick": ["rel", "dbg"], "thorough": ["rel", "dbg"]},
     batches={"quick": 8, "thorough": 16},
     timeout={"quick": 300, "thorough": 3000},
     rule="(1) complete grammar product 4 schemes x 7 hosts (reg-name, IPv4, bracketed IPv6, zone id, punycode) x 15 port forms (absent, "
